@@ -534,4 +534,88 @@ theorem decimalAux_digits : ∀ fuel n, decimalAux fuel n ≠ [] ∧ ∀ c ∈ d
 /-- `strconv.Itoa` of a non-negative number: at least one character, decimal digits only -/
 theorem decimal_digits (n : Nat) : decimal n ≠ [] ∧ ∀ c ∈ decimal n, c.isDigit = true := decimalAux_digits n n
 
+/-! ## the File-API path with a failing unlink -/
+
+/-- the actions of `fileRunFull`, with the `Remove` failing or not -/
+theorem fileRunFull_acts (code : Str → Path) (tmpdir filename : Str) (mode : Nat) (pieces : List Bytes) (doCommit : Bool)
+    (fault : Fault) (rands : Nat → Nat) (ofaults : Nat → Option OpenFault) (u : Bool) (fs : FS) (tmp dst : Path)
+    (fails : List Act2)
+    (hc : createWithMode code tmpdir filename mode rands ofaults fs =
+      (.ok (openFile tmp dst), fails ++ [.base (.createExcl tmp mode)])) :
+    (fileRunFull code tmpdir filename mode pieces doCommit fault rands ofaults u fs).2 =
+      fails ++ mapU u (fileRun tmp dst mode pieces doCommit fault).2 ∧
+    ((fileRunFull code tmpdir filename mode pieces doCommit fault rands ofaults u fs).1 =
+        .res (fileRun tmp dst mode pieces doCommit fault).1 ∨
+      (u = true ∧ doCommit = false ∧ (fileRun tmp dst mode pieces doCommit fault).1 = .ok ∧
+        (fileRunFull code tmpdir filename mode pieces doCommit fault rands ofaults u fs).1 = .res .errno)) := by
+  unfold fileRunFull fileRun
+  rw [hc]
+  have hcreate : File.create tmp dst mode = (openFile tmp dst, [.createExcl tmp mode]) := rfl
+  simp only [hcreate]
+  have hw := writeAll_onlyWrites' (openFile tmp dst) pieces fault.writeAt
+  generalize writeAll (openFile tmp dst) pieces fault.writeAt = w at hw ⊢
+  have hwm : mapU u w.2 = w.2.map .base := mapU_noUnlink u _ (onlyWrites_noUnlink tmp _ hw)
+  have hcons : ∀ l, mapU u (Act.createExcl tmp mode :: l) = Act2.base (.createExcl tmp mode) :: mapU u l :=
+    fun l => by simp [mapU]
+  have hcl := closeU_eq (openFile tmp dst)
+  by_cases h1 : w.1 ≠ .ok
+  · rw [if_pos h1, if_pos h1]
+    refine ⟨?_, Or.inl rfl⟩
+    rw [(hcl false u).2.1]
+    simp [mapU_append, hwm, hcons]
+  · rw [if_neg h1, if_neg h1]
+    cases doCommit with
+    | true =>
+      simp only [if_true]
+      rw [commitU_eq]
+      simp only
+      obtain ⟨_, hm2, _⟩ := closeU_eq ((openFile tmp dst).commit (decide (fault = .close)) (decide (fault = .rename))).1
+        false u
+      have hcomm : ((openFile tmp dst).commit (decide (fault = .close)) (decide (fault = .rename))).1.committed = true := by
+        unfold File.commit openFile
+        simp only [Bool.false_eq_true, if_false]
+        split <;> (try split) <;> (try split) <;> simp
+      have hres : (((openFile tmp dst).commit (decide (fault = .close)) (decide (fault = .rename))).1.closeU false u).2.1 =
+          (((openFile tmp dst).commit (decide (fault = .close)) (decide (fault = .rename))).1.close false).2.1 := by
+        simp [File.closeU, File.close, hcomm]
+      refine ⟨?_, Or.inl ?_⟩
+      · rw [hm2]; simp [mapU_append, hwm, hcons, List.append_assoc]
+      · rw [hres]
+    | false =>
+      simp only [Bool.false_eq_true, if_false]
+      obtain ⟨_, h2, h3⟩ := hcl (decide (fault = .close)) u
+      refine ⟨?_, ?_⟩
+      · rw [h2]; simp [mapU_append, hwm, hcons]
+      · rcases h3 with h | ⟨hu, hok, herr⟩
+        · exact Or.inl (by rw [h])
+        · exact Or.inr ⟨hu, trivial, hok, by rw [herr]⟩
+
+/-- the actions of `fileRun` contain an unlink at most as their last action; a run that does not commit ends with the
+    unlink of the temporary file, and everything before it names only the temporary file -/
+theorem fileRun_unlinkLast (tmp dst : Path) (mode : Nat) (pieces : List Bytes) (doCommit : Bool) (fault : Fault) :
+    UnlinkLast (fileRun tmp dst mode pieces doCommit fault).2 ∧
+    (¬ ((fileRun tmp dst mode pieces doCommit fault).1 = .ok ∧ doCommit = true) →
+      ∃ body, (∀ a ∈ body, isUnlink a = false) ∧ (fileRun tmp dst mode pieces doCommit fault).2 = body ++ [.unlink tmp] ∧
+        ∀ a ∈ body, ∀ q, q ≠ tmp → q ∉ targets a) := by
+  obtain ⟨ws, tl, hacts, hws, htl, hiff, _⟩ := fileRun_shape tmp dst mode pieces doCommit fault
+  have hpre : ∀ a ∈ [Act.createExcl tmp mode] ++ ws, isUnlink a = false := by
+    intro a ha
+    rcases List.mem_append.mp ha with h | h
+    · simp at h; subst h; rfl
+    · exact onlyWrites_noUnlink tmp ws hws a h
+  obtain ⟨h1, h2⟩ := tail_unlinkLast tmp dst _ tl hpre htl
+  rw [hacts]
+  refine ⟨h1, ?_⟩
+  intro hno
+  obtain ⟨body, hbody, hsplit, hmem⟩ := h2 (fun e => hno (hiff.mp e))
+  refine ⟨body, hbody, hsplit, ?_⟩
+  intro a ha q hq
+  rcases hmem a ha with h | rfl | rfl | rfl
+  · rcases List.mem_append.mp h with h | h
+    · simp at h; subst h; simp [targets, hq]
+    · exact onlyWrites_targets tmp q hq ws hws a h
+  · simp [targets]
+  · simp [targets]
+  · simp [targets]
+
 end Safe
